@@ -8,6 +8,8 @@
 From Coq Require Import List NArith Bool String.
 From YVGen Require Import GcTables.
 From YV Require Import Heap HeapTablesRef Collect Mutator CollectProofs MutatorProofs CollectExt.
+(* CollectRun (runner of the snapshot correspondence) is imported so that `make props/C01.vo` keeps it up to date *)
+From YV Require CollectRun.
 Import ListNotations.
 
 Notation run_gen := (run marks_gen blackens_black_gen blackens_mark_gen holds_gen pinned_ref).
